@@ -164,7 +164,8 @@ func (root *Root) resolve(
 		}
 		// The value has not been resolved and coerced so it does not
 		// belong in the response.
-		return nil, []error{resWarnp(field, "maximum resolve depth of %d exceeded", MaxResolveDepth)}
+		// (the caller puts the key of the field in front of the path)
+		return nil, []error{resWarn(field.line, field.col, "maximum resolve depth of %d exceeded", MaxResolveDepth)}
 	}
 	switch tt := t.(type) {
 	case *List:
